@@ -5,8 +5,13 @@ import simmon
 TRUSTED = simcheck.TRUSTED_SIM + [
     "Model/SimQ.v extends the machine with the pending-event multiset; its queue operations are observed on the simulator's "
     "own EventQueue object (add_event / next / remove_event / reheapify) and fed to the machine (stream S-simq)",
-    "the clause 'starts exactly at the chosen time when ready and the pool can hold it' is decided by the monitor on the "
-    "implementation's logs only"]
+    "the clause 'starts exactly at the chosen time when ready and the pool can hold it' is a theorem about the handler layer "
+    "Model/SimHandlers.v (Simulator.__handle_task_placement + WorkerPool.place_task written out as functions of the machine "
+    "state; hand-written, readiness and Task.remaining_time translated from source), tied by the stream S-handlers: for every "
+    "TASK_PLACEMENT event handled in the generated simulations the outcome computed from the machine state (start on which "
+    "worker / re-queue at which time / drop) must equal the outcome observed on the implementation; requests that name resource "
+    "units by id, batch strategies and Clockwork worlds (loaded profiles hold resources) are outside the exact part of the "
+    "handler model and are judged by the monitor on the implementation's logs only"]
 
 
 def run(ctx):
@@ -17,6 +22,7 @@ def run(ctx):
         ctx, ["C03"], lambda r, w: simmon.mon_c03(r, w["flags"].get("runtime_variance", 0)),
         "clock / runtime / start-time clause of C03 fails on the implementation's own call log",
         deps=["Model/SimQ.v"])
+    ctx.build("C03_handlers", deps=["Model/Sim.v", "Model/SimQ.v", "Model/SimRows.v", "Model/SimHandlers.v"])
     # the machine with the event queue must accept the same runs (queue operations included)
     try:
         mism, fed = simcommon.machine_q_stream(ctx, worlds, runs)
@@ -31,3 +37,26 @@ def run(ctx):
                      "past, a popped event that was not minimal / not at the clock, a handled event that was not the one "
                      "popped, or a placement event earlier than the chosen time" % rej[0]) if rej else
                     "accepted but the final state differs"})
+
+    # the handler layer: predicted outcome of every TASK_PLACEMENT handler vs the observed one
+    ctx.rules.append("S-handlers: every TASK_PLACEMENT event handled in the S-sim runs (non-Clockwork worlds): Model/SimHandlers.v "
+                     "computes from the machine state whether the task is started (and on which worker: named or first fit in "
+                     "pool order), re-queued (and at which time) or dropped; compared inside Coq with what the implementation did")
+    try:
+        hm, hfed, hkinds = simcommon.handlers_stream(ctx, worlds, runs,
+                                                     outside=lambda w: w["flags"].get("scheduler") == "Clockwork")
+    except core.ModelEvalError as e:
+        ctx.broken.append({"kind": "correspondence", "name": "S-handlers (handler model does not evaluate)", "detail": str(e)[-500:]})
+        hm = []
+    names = {0: "outside the exact part", 1: "started on worker", 2: "re-queued at", 3: "dropped", 4: "Python raises"}
+    for (i, j, mo, io) in hm[:3]:
+        if j is None:
+            continue            # the machine rejected the call log: reported by S-simq above
+        def say(o):
+            return "nothing" if o is None else "%s %s" % (names.get(o[0], "?"), o[1] if len(o) > 1 else "")
+        ctx.violation("handler_world%d" % i, {
+            "stream": "S-handlers", "world": worlds[i], "handler_ordinal": j, "model": mo, "implementation": io,
+            "what": "TASK_PLACEMENT handler no. %d of the run: the implementation's outcome (%s) is not the one that follows "
+                    "from the state (%s): a ready task that fits its pool must start at the time of its placement event on the "
+                    "named / first fitting worker, a task waiting for parents is re-queued at clock + max(1, max remaining time "
+                    "of the parents), a refused one at clock + 1, a cancelled one is dropped" % (j, say(io).strip(), say(mo).strip())})
